@@ -1,0 +1,207 @@
+//go:build verif
+
+package engine
+
+import "fmt"
+
+// Read-only accessors for verification monitors. Nothing here changes the state of the engine.
+
+// VerifOpcodeNames are the names of the VM opcodes, indexed by opcode.
+var VerifOpcodeNames = [...]string{
+	opEnter:      "enter",
+	opCall:       "call",
+	opExit:       "exit",
+	opGetConst:   "get_const",
+	opPutConst:   "put_const",
+	opGetVar:     "get_var",
+	opPutVar:     "put_var",
+	opGetFunctor: "get_functor",
+	opPutFunctor: "put_functor",
+	opPop:        "pop",
+	opCut:        "cut",
+	opGetList:    "get_list",
+	opPutList:    "put_list",
+	opGetPartial: "get_partial",
+	opPutPartial: "put_partial",
+}
+
+// VerifProc describes a procedure in the database.
+type VerifProc struct {
+	Name          string
+	Arity         int
+	User          bool
+	Public        bool
+	Dynamic       bool
+	Multifile     bool
+	Discontiguous bool
+	Clauses       int
+}
+
+// VerifProcedures lists every procedure known to the VM.
+func VerifProcedures(vm *VM) []VerifProc {
+	ret := make([]VerifProc, 0, len(vm.procedures))
+	for pi, p := range vm.procedures {
+		vp := VerifProc{Name: pi.name.String(), Arity: int(pi.arity)}
+		if u, ok := p.(*userDefined); ok {
+			vp.User = true
+			vp.Public = u.public
+			vp.Dynamic = u.dynamic
+			vp.Multifile = u.multifile
+			vp.Discontiguous = u.discontiguous
+			vp.Clauses = len(u.clauses)
+		}
+		ret = append(ret, vp)
+	}
+	return ret
+}
+
+// VerifInstr is one VM instruction.
+type VerifInstr struct {
+	Op      string
+	Operand Term // nil, Integer (variable offset / length), a constant, or name/arity
+}
+
+// VerifClause is a stored clause with its compiled form.
+type VerifClause struct {
+	Name  string
+	Arity int
+	Raw   Term
+	NVars int
+	Code  []VerifInstr
+}
+
+func verifClause(c clause) VerifClause {
+	vc := VerifClause{Name: c.pi.name.String(), Arity: int(c.pi.arity), Raw: c.raw, NVars: len(c.vars)}
+	for _, in := range c.bytecode {
+		name := fmt.Sprintf("op%d", in.opcode)
+		if int(in.opcode) < len(VerifOpcodeNames) {
+			name = VerifOpcodeNames[in.opcode]
+		}
+		operand := in.operand
+		if pi, ok := operand.(procedureIndicator); ok {
+			operand = pi.Term()
+		}
+		vc.Code = append(vc.Code, VerifInstr{Op: name, Operand: operand})
+	}
+	return vc
+}
+
+// VerifClauses returns the clauses of a user-defined procedure (nil, false if there is none).
+func VerifClauses(vm *VM, name Atom, arity int) ([]VerifClause, bool) {
+	u, ok := vm.procedures[procedureIndicator{name: name, arity: Integer(arity)}].(*userDefined)
+	if !ok {
+		return nil, false
+	}
+	ret := make([]VerifClause, 0, len(u.clauses))
+	for _, c := range u.clauses {
+		ret = append(ret, verifClause(c))
+	}
+	return ret, true
+}
+
+// VerifCompile compiles a clause term the way assert and consult do and returns the result.
+func VerifCompile(t Term, env *Env) ([]VerifClause, error) {
+	cs, err := compile(t, env)
+	if err != nil {
+		return nil, err
+	}
+	ret := make([]VerifClause, 0, len(cs))
+	for _, c := range cs {
+		ret = append(ret, verifClause(c))
+	}
+	return ret, nil
+}
+
+// VerifBinding is one entry of an environment.
+type VerifBinding struct {
+	Key   int64
+	Value Term
+}
+
+// VerifEnvInfo is the result of walking an environment.
+type VerifEnvInfo struct {
+	Size        int
+	BlackHeight int
+	Problem     string // "" if all red-black/BST invariants hold
+	Bindings    []VerifBinding
+}
+
+// VerifEnvCheck walks the persistent tree behind env and checks its structural invariants.
+func VerifEnvCheck(env *Env) VerifEnvInfo {
+	var info VerifEnvInfo
+	if env == nil {
+		return info
+	}
+	if env.color != black {
+		info.Problem = "root is not black"
+	}
+	var walk func(e *Env, lo, hi *envKey, parentRed bool) int
+	walk = func(e *Env, lo, hi *envKey, parentRed bool) int {
+		if e == nil {
+			return 1
+		}
+		if e.color == red && parentRed && info.Problem == "" {
+			info.Problem = fmt.Sprintf("red node %d has a red parent", e.key)
+		}
+		if (lo != nil && e.key <= *lo) || (hi != nil && e.key >= *hi) {
+			if info.Problem == "" {
+				info.Problem = fmt.Sprintf("key %d violates the search-tree order", e.key)
+			}
+		}
+		k := e.key
+		l := walk(e.left, lo, &k, e.color == red)
+		info.Size++
+		info.Bindings = append(info.Bindings, VerifBinding{Key: int64(e.key), Value: e.value})
+		r := walk(e.right, &k, hi, e.color == red)
+		if l != r && info.Problem == "" {
+			info.Problem = fmt.Sprintf("black heights differ under key %d: %d vs %d", e.key, l, r)
+		}
+		if e.color == black {
+			return l + 1
+		}
+		return l
+	}
+	info.BlackHeight = walk(env, nil, nil, false)
+	return info
+}
+
+// VerifOperator is one operator definition.
+type VerifOperator struct {
+	Priority  int
+	Specifier string
+	Name      string
+}
+
+// VerifOperators lists the operator table of the VM.
+func VerifOperators(vm *VM) []VerifOperator {
+	var ret []VerifOperator
+	for name, ops := range vm.operators {
+		for _, o := range ops {
+			if o == (operator{}) {
+				continue
+			}
+			ret = append(ret, VerifOperator{
+				Priority:  int(o.priority),
+				Specifier: fmt.Sprint(o.specifier.term()),
+				Name:      name.String(),
+			})
+		}
+	}
+	return ret
+}
+
+// VerifStreamInfo is the cursor state of a stream.
+type VerifStreamInfo struct {
+	Position    int64
+	EndOfStream string
+	Buffered    int
+}
+
+// VerifStream reports the cursor state of a stream.
+func VerifStream(s *Stream) VerifStreamInfo {
+	info := VerifStreamInfo{Position: s.position, EndOfStream: fmt.Sprint(s.endOfStream.Term())}
+	if s.buf.Reader != nil {
+		info.Buffered = s.buf.Buffered()
+	}
+	return info
+}
